@@ -344,7 +344,7 @@ Proof.
   unfold parse_possibility. destruct (eqc (peek (eat_ws i)) 36) eqn:H36.
   - unfold parse_substvar. destruct (substvar_loop [] _) as [[p k]| |] eqn:S; try discriminate.
     intros E G. inversion E; subst. apply Forall_app. split; [exact G|]. constructor; [|constructor]. right. eapply substvar_inv; eauto.
-  - intros E G. eapply possi_loop_inv; [exact E|apply fresh_pinv| |exact G]. intros _. exact H36.
+  - intros E G. apply guard_ok_inv in E. eapply possi_loop_inv; [exact E|apply fresh_pinv| |exact G]. intros _. exact H36.
 Qed.
 
 Definition good_rel (r : relation) : Prop := r <> [] /\ Forall good r.
